@@ -233,7 +233,7 @@ class OpGen:
                     d.tag("op.custom_scalar_leaf")
             scope[ck] = text
             items.append(text)
-        spread_here = []
+        spread_here = scope.setdefault("__spreads", [])  # shared by the whole level (inline fragments included)
         narrowing = False  # a subtype-specific class is generated for this level
         same_spread = False
         # inline fragments
@@ -258,6 +258,8 @@ class OpGen:
                     dr = self._directive()
                 items.append(f"... on {t.name}{dr} {sub}")
                 scope.setdefault("__inl", set()).add(t.name)
+                if inline_depth == 0:
+                    scope["__inl_direct"] = True
                 d.tag("op.inline_fragment")
                 if rel != "same":
                     narrowing = True
@@ -265,8 +267,10 @@ class OpGen:
                 sub = self.selection_set(parent, depth + 1, scope, in_fragment, inline_depth + 1)
                 if sub is not None:
                     items.append(f"... {sub}")
+                    if inline_depth == 0:
+                        scope["__inl_direct"] = True
         # spreads of already generated fragments
-        if self.fragments and d.bool(self.frag_p):
+        if self.fragments and d.bool(max(self.frag_p, 0.8) if in_fragment is not None else self.frag_p):
             for fname in d.sample(self.frag_order, d.int(1, 2)):
                 if fname == in_fragment:
                     continue
@@ -280,8 +284,11 @@ class OpGen:
                 pk = kind_of(parent)
                 if not d.enabled(f"sel.spread_{rel}_{pk}"):
                     continue
-                mode = "same" if rel == "same" else "other"
-                if self.frag_use.get(fname, mode) != mode and not d.enabled("sel.spread_mixed_use"):
+                # how the generator under test will use the fragment here: as a base class ("mixin") or
+                # unpacked into the classes of this position; an unpacked fragment drags its dependencies
+                mode = "mixin" if rel == "same" and not fr["inline"] else "unpacked"
+                affected = [fname] + (sorted(fr["alldeps"]) if mode == "unpacked" else [])
+                if any(self.frag_use.get(x, mode) != mode for x in affected) and not d.enabled("sel.spread_mixed_use"):
                     continue
                 if inline_depth > 0 and rel != "same" and not d.enabled("sel.spread_inside_inline_narrowing"):
                     continue
@@ -296,8 +303,9 @@ class OpGen:
                 if rel == "same" and is_abstract_type(parent) and fr["narrowing_deep"] and not fr["inline"] \
                         and not d.enabled("sel.spread_same_abs_with_narrowing"):
                     continue
+                creates_narrowing = rel != "same" or fr["narrowing_deep"]
                 if is_abstract_type(parent) and (
-                    (rel == "same" and narrowing) or (rel != "same" and same_spread)
+                    (mode == "mixin" and narrowing) or (creates_narrowing and same_spread)
                 ) and not d.enabled("sel.spread_same_abs_with_narrowing"):
                     continue
                 # the generator under test treats inline fragments found through spreads as inline
@@ -305,12 +313,12 @@ class OpGen:
                 if isinstance(parent, GraphQLInterfaceType):
                     ok = True
                     for tn in sorted(fr["keys"].get("__inl", ())):
-                        r2 = relation(self.schema, parent, self.schema.type_map[tn])
+                        r2 = relation(self.schema, parent, self.schema.type_map[tn]) or "sibling"
                         if r2 not in ("same", "sub_object") and not d.enabled(f"sel.inline_{r2}_iface"):
                             ok = False
                     if not ok:
                         continue
-                fkeys = {k2: v2 for k2, v2 in fr["keys"].items() if k2 != "__inl"}
+                fkeys = {k2: v2 for k2, v2 in fr["keys"].items() if not k2.startswith("__")}
                 # response keys of the fragment must not clash with the scope
                 if any(k2 in scope and scope[k2] != sig for k2, sig in fkeys.items()):
                     continue
@@ -319,11 +327,15 @@ class OpGen:
                         continue
                 scope.update(fkeys)
                 scope.setdefault("__inl", set()).update(fr["keys"].get("__inl", ()))
-                self.frag_use.setdefault(fname, mode)
+                for o in fr["keys"].get("__spreads", ()):
+                    if o not in spread_here:
+                        spread_here.append(o)
+                for x in affected:
+                    self.frag_use.setdefault(x, mode)
                 spread_here.append(fname)
-                if rel == "same":
+                if mode == "mixin":
                     same_spread = True
-                else:
+                if creates_narrowing:
                     narrowing = True
                 dr = ""
                 if d.bool(0.06) and d.enabled("sel.directive_on_spread"):
@@ -332,6 +344,8 @@ class OpGen:
                 d.tag("op.fragment_spread")
                 if fr["deps"]:
                     d.tag("op.nested_fragment")
+                    if any(self.fragments[x]["deps"] for x in fr["deps"]):
+                        d.tag("op.fragment_chain3")
                 if in_fragment is not None:
                     self._cur_deps.add(fname)
                     if rel != "same":
@@ -376,7 +390,7 @@ class OpGen:
                 "keys": scope,
                 "deps": set(self._cur_deps),
                 "alldeps": alldeps,
-                "inline": "... on" in sub or "... {" in sub,
+                "inline": bool(scope.get("__inl_direct")),  # a top-level inline fragment: always unpacked
             }
             me = self.fragments[name]
             me["narrowing_deep"] = me["inline"] or self._cur_narrow or any(
